@@ -8,6 +8,7 @@ import (
 	"os"
 	"sort"
 	"strings"
+	"sync/atomic"
 	"time"
 
 	"golang.org/x/tools/go/ssa"
@@ -59,6 +60,7 @@ type Obl struct {
 
 type Exec struct {
 	deadline time.Time // exploration budget (zero: none)
+	abort    int32     // set by the memory watchdog
 	prog     *ssa.Program
 	nextObj  int
 	nextSt   int
@@ -1000,7 +1002,7 @@ func (e *Exec) runBlock(s *State, fr *Frame, b *ssa.BasicBlock, start int, stop 
 	var side []Outcome
 	for i := start; i < len(b.Instrs); i++ {
 		e.instrs++
-		if e.instrs&1023 == 0 && !e.deadline.IsZero() && time.Now().After(e.deadline) {
+		if e.instrs&1023 == 0 && ((!e.deadline.IsZero() && time.Now().After(e.deadline)) || atomic.LoadInt32(&e.abort) != 0) {
 			panic(budgetExceeded{})
 		}
 		if e.split != nil {
